@@ -352,7 +352,35 @@ def check(env, inst, timeout_ms=10000):
 tv.register("c06-derived", gen, check)
 
 
+def xh_literal_family(run):
+    """symbolic Python literal operand (engine XH)"""
+    from props import c02, c06_xh
+    quick = run.tier == "quick"
+    t = 40.0 if quick else 150.0
+    jobs = []
+    for w in ((2, 3) if quick else (1, 2, 3, 4)):
+        for opn in c06_xh.BV_OPS:
+            jobs.append(("props.c06_xh", "h_lit", t, {"sort": "V", "w": w, "op": opn, "name": "literal/V%d/%s" % (w, opn)}))
+    for opn in c06_xh.INT_OPS:
+        jobs.append(("props.c06_xh", "h_lit", t, {"sort": "I", "op": opn, "name": "literal/I/%s" % opn}))
+        if not any(z in opn for z in ("Min", "Max", "GE", "GT")):
+            jobs.append(("props.c06_xh", "h_lit", t, {"sort": "R", "op": opn, "qbox": 4, "name": "literal/R/%s" % opn}))
+
+    def describe(p, r):
+        return "%s on a %s symbol with value/literal %r does not denote what its name says (or a literal the sort cannot " \
+               "represent is accepted)" % (p["op"], p["sort"] + str(p.get("w", "")), r["args"])
+    c02.run_xh_family(run, "xh-literal", jobs, describe, lambda p, a: "literal/%s/%s" % (p["sort"], p["op"]), "xh")
+    c02.twin_check(run, "xh-literal", jobs[::7])
+    run.bounds["xh-literal"] = ("literal operand symbolic: BV widths 2,3 (quick) / 1-4, literal in [-2^w-1, 2^w+1], all values of x; "
+                                "Int: literal and x unbounded; Real: literal unbounded int, x = n/d with |n|<=4, 1<=d<=4")
+
+
 def replay(data):
+    if data.get("kind") == "xh":
+        from props.c02 import replay_call
+        d = dict(data)
+        d["mod"] = "props.c06_xh"
+        return replay_call(d)
     env = tv.fresh_env()
     for tier in ("quick", "thorough"):
         S, cs = cases(env, tier)
@@ -372,8 +400,13 @@ def run(run, only=None):
     run.bounds = {"widths": "1,2,3,4,8 (quick) + 5,16 (thorough)", "arities": "Min/Max 1-5, AtMostOne/ExactlyOne 0-5, "
                   "AllDifferent 0-4, n-ary BV 1-4, BVRepeat 1-4, integer shift amounts 0..w+2",
                   "values": "all values of the symbol arguments (z3 validity: exact for Int/Real/BV)"}
-    run.outside = ["arities and widths above the listed ones", "literal operands other than the listed boundary values "
-                   "(symbolic literals are covered by the XH family of C06 when present)"]
+    run.outside = ["arities and widths above the listed ones", "derived-form literal operands other than the listed boundary values in the TV family "
+                   "(the XH family makes the literal symbolic for the infix/method operators)"]
     run.assumptions = ["z3's SMod / AtMost / PbEq / RepeatBitVec / Rotate* are the named mathematical functions"]
-    tv.run_family(run, "c06-derived", run.tier)
+    if not only or "c06-derived" in only:
+        tv.run_family(run, "c06-derived", run.tier)
+    if not only or "xh-literal" in only:
+        run.functions.append({"module": "pysmt/fnode.py", "what": "FNode._apply_infix/_infix_prepare_arg and the infix/method operators "
+                              "with a symbolic Python literal (CrossHair)", "sha1": core.src_sha("pysmt/fnode.py", "pysmt/formula.py")})
+        xh_literal_family(run)
     run.extra["programs"] = run.evaluations
